@@ -98,4 +98,13 @@ def discharge(job):
             r, backend = "sat", "cvc5"
         else:
             reason = (reason or "") + " | cvc5: " + (reason3 or "unknown")
+    if r == "unknown":
+        # fixed-size registrations: range-guarded quantifiers expanded, pointwise library axioms instantiated on the ground terms
+        # (pyvc/finite_model.py says why a `sat` of that query is a counter-model of this one); None = outside the fragment
+        from . import finite_model
+
+        fm = finite_model.search(smt2, min(timeout_ms, 10000))
+        if fm is not None:
+            r, model, backend = fm[0], fm[1], "z3+finite-instantiation"
+            total += fm[2]
     return dict(name=name, verdict=r, backend=backend, seconds=total, model=model, reason=reason)
